@@ -49,9 +49,9 @@ thread_local! {
 fn ms_of(i: std::time::Instant) -> i64 {
     let base = T0.with(|t| t.borrow().unwrap());
     if i >= base {
-        (i - base).as_millis() as i64
+        (i - base).as_millis().min(2_000_000_000) as i64
     } else {
-        -((base - i).as_millis() as i64)
+        -((base - i).as_millis().min(2_000_000_000) as i64)
     }
 }
 
@@ -542,6 +542,13 @@ impl St {
                 let n = self.next_msg;
                 let mut ctx = context::current();
                 ctx.deadline = self.clock.std_at(dl);
+                // `wrap`: the deadline is 2^64 ms (584 million years) further away: still an `Instant`, and nothing that
+                // converts the remaining time to a narrower integer may bring it back near
+                if step.get("wrap").and_then(|v| v.as_bool()).unwrap_or(false) {
+                    if let Some(d) = ctx.deadline.checked_add(std::time::Duration::from_millis(u64::MAX)).and_then(|d| d.checked_add(std::time::Duration::from_millis(1))) {
+                        ctx.deadline = d;
+                    }
+                }
                 ctx.trace_context = trace::Context {
                     trace_id: trace::TraceId::from((500 + n) as u128),
                     span_id: trace::SpanId::from(9u64),
@@ -756,7 +763,11 @@ impl Gen {
             let dls = [0i64, 1, 2, 3, 5, 8, 10_000, 10_000, 10_000];
             let dl = dls[rng.gen_range(0..dls.len())];
             let dl = if dl < 10_000 && rng.gen_bool(0.7) { now + dl } else { dl };
-            ch.push((14, json!({"a":"Req","id":id,"dl":dl})));
+            if rng.gen_range(0..12) == 0 {
+                ch.push((14, json!({"a":"Req","id":id,"dl":now + dl.min(10),"wrap":true})));
+            } else {
+                ch.push((14, json!({"a":"Req","id":id,"dl":dl})));
+            }
         }
         if alive && !st.eof_pushed && !self.used_ids.is_empty() {
             let id = if rng.gen_range(0..6) == 0 {
